@@ -1336,23 +1336,69 @@ fn dict_case(cx: &mut Ctx, text: &[u8], minp: usize, maxp: usize, exhaustive: bo
     };
     let _ = once_case(cx, "SuffixArrayDictionary", "dict", cj, state, "d.dict", exhaustive, &none, &mut w, &[8], None);
 }
-fn mmio_case(cx: &mut Ctx, chunks: &[String], initial: usize, exhaustive: bool) {
-    let cj = json!({"cell": "mmio", "chunks": chunks, "initial": initial, "exhaustive": exhaustive});
-    let mut all = vec![]; for c in chunks { all.extend_from_slice(&unhex(c)); }
-    let state = json!({"bytes": hex(&all)});
+// ops: ["w", hex] write_slice | ["s", k] seek to capacity * k / 8 | ["x"] seek past the capacity (must be refused) | ["f"] flush | ["t"] truncate
+// every history ends with flush, truncate, flush
+fn mmio_case(cx: &mut Ctx, ops: &[Value], initial: usize, exhaustive: bool) {
+    let cj = json!({"cell": "mmio", "ops": ops, "initial": initial, "exhaustive": exhaustive});
+    // what the file must hold at the end: a plain byte vector with the same write / seek / truncate semantics
+    let mut sh: Vec<u8> = vec![]; let mut shp = 0usize;
+    let mut seeks: Vec<usize> = vec![];
+    let mut terms: Vec<String> = vec![]; let mut obs: Vec<[u64; 2]> = vec![];
+    let mut volume = 0usize;
     // a raw byte stream has no header: any image is "what the file contains"; the reader must serve exactly
     // the bytes present and refuse reads past them; for crash images that is all that is required
     let class_of = |_: &Value, _: &str, _: &str| -> Option<&'static str> { None };
     let img_state = |d: &Disk| -> Vec<Value> { d.get("o.bin").map(|b| vec![json!({"bytes": hex(b)})]).unwrap_or_default() };
+    let mut full: Vec<Value> = ops.to_vec(); full.push(json!(["f"])); full.push(json!(["t"])); full.push(json!(["f"]));
     let mut w = |path: &str| -> Result<(), String> {
-        let mut o = MemoryMappedOutput::create(path, initial).map_err(|e| e.to_string())?;
-        for c in chunks { o.write_slice(&unhex(c)).map_err(|e| e.to_string())?; }
         use zipora::DataOutput;
-        o.flush().map_err(|e| e.to_string())?;
-        o.truncate().map_err(|e| e.to_string())?;
-        o.flush().map_err(|e| e.to_string())
+        let mut o = MemoryMappedOutput::create(path, initial).map_err(|e| e.to_string())?;
+        for op in &full {
+            match op[0].as_str().unwrap_or("") {
+                "w" => { let d = unhex(op[1].as_str().unwrap_or("")); o.write_slice(&d).map_err(|e| e.to_string())?;
+                         if sh.len() < shp + d.len() { sh.resize(shp + d.len(), 0); } sh[shp..shp + d.len()].copy_from_slice(&d); shp += d.len();
+                         volume += d.len(); terms.push(format!("MWrite {}", coq_bytes(&d))); }
+                "s" => { let p = o.capacity() * (op[1].as_u64().unwrap_or(0) as usize).min(8) / 8; o.seek(p).map_err(|e| e.to_string())?; shp = p; seeks.push(p); terms.push(format!("MSeek {}", p)); }
+                "x" => { if o.seek(o.capacity() + 1).is_ok() { return Err("seek past the capacity succeeded".into()); } continue; }
+                "f" => { o.flush().map_err(|e| e.to_string())?; terms.push("MFlush".into()); }
+                "t" => { o.truncate().map_err(|e| e.to_string())?; if sh.len() < shp { sh.resize(shp, 0); } sh.truncate(shp); terms.push("MTruncate".into()); }
+                _ => continue,
+            }
+            if o.position() != shp { return Err(format!("position {} after {:?}, expected {}", o.position(), op, shp)); }
+            obs.push([o.position() as u64, o.capacity() as u64]);
+        }
+        Ok(())
     };
-    let _ = once_case(cx, "MemoryMappedOutput/Input", "mmio", cj, state, "o.bin", exhaustive, &class_of, &mut w, &[], Some(&img_state));
+    // the writer runs inside once_case; the expected final state is known only afterwards, so run the oracle in two steps:
+    // first the writer (traced), then the judgement against the shadow
+    dbg_case(&cj);
+    let cell = "MemoryMappedOutput/Input";
+    cx.sum.eval(cell, &cj.to_string(), true);
+    cx.sum.cell_status(cell, "M+S");
+    let mut r = Rng::new(fnv64(cj.to_string().as_bytes(), 17));
+    let dir = cx.fresh_dir("on");
+    let path = format!("{}/o.bin", dir);
+    trace::start(&dir);
+    let res = guarded(|| w(&path));
+    let tr = trace::stop();
+    match res { Err(p) => { cx.sum.fail(cell, None, cj, &format!("writer panicked: {}", p)); return; }
+                Ok(Err(e)) => { cx.sum.fail(cell, None, cj, &format!("writer failed: {}", e)); let _ = std::fs::remove_dir_all(&dir); return; }
+                Ok(Ok(())) => {} }
+    let mut sim = Disk::new();
+    for op in &tr { apply(&mut sim, op); }
+    if let Err(w) = tracer_in_sync(&dir, &sim) { panic!("C19 tracer out of sync with the file system:{}", w); }
+    let state = json!({"bytes": hex(&sh)});
+    let states = vec![state.clone()];
+    let marks = vec![tr.len()];
+    let fin = judge_trace(cx, cell, "mmio", &class_of, &cj, &json!({}), "o.bin", false, &tr, &marks, &states, Some(&state), &[], &mut r, exhaustive, Some(&img_state));
+    let _ = std::fs::remove_dir_all(&dir);
+    if let Some(f) = fin.as_ref().and_then(|d| d.get("o.bin")) {
+        if volume <= 3000 && initial <= 4096 && cx.n_mmio < if cx.thorough { 120 } else { 14 } && cx.coq_seen.insert(fnv64(cj.to_string().as_bytes(), 0x6d6d)) {
+            cx.n_mmio += 1;
+            cx.shards.push(format!("(XMmio {} [{}] [{}] {})", initial, terms.join("; "), obs.iter().map(|o| format!("[{}; {}]", o[0], o[1])).collect::<Vec<_>>().join("; "), coq_bytes(f)),
+                           json!({"cell": "mmio_ops", "ops": ops, "initial": initial}));
+        }
+    }
 }
 
 // ------------------------------------------------------------------ replay / dispatch
@@ -1372,7 +1418,11 @@ fn run_one(cx: &mut Ctx, c: &Value) {
         }
         Some("zipoffset") => { let recs: Vec<String> = c["records"].as_array().map(|a| a.iter().map(|x| x.as_str().unwrap_or("").to_string()).collect()).unwrap_or_default(); zipoffset_case(cx, &recs, c["checksum"].as_u64().unwrap_or(0) as u8, ex) }
         Some("dict") => dict_case(cx, &unhex(c["text"].as_str().unwrap_or("")), c["min"].as_u64().unwrap_or(4) as usize, c["max"].as_u64().unwrap_or(256) as usize, ex),
-        Some("mmio") => { let ch: Vec<String> = c["chunks"].as_array().map(|a| a.iter().map(|x| x.as_str().unwrap_or("").to_string()).collect()).unwrap_or_default(); mmio_case(cx, &ch, c["initial"].as_u64().unwrap_or(16) as usize, ex) }
+        Some("mmio") | Some("mmio_ops") => {
+            // (older replays carry "chunks")
+            let ops: Vec<Value> = if let Some(ch) = c["chunks"].as_array() { ch.iter().map(|x| json!(["w", x])).collect() } else { c["ops"].as_array().cloned().unwrap_or_default() };
+            mmio_case(cx, &ops, c["initial"].as_u64().unwrap_or(16) as usize, ex)
+        }
         _ => {}
     }
 }
@@ -1500,10 +1550,17 @@ pub fn run(args: &Args) {
             let text: Vec<u8> = (0..n).map(|_| b'a' + rng.below(alpha) as u8).collect();
             dict_case(&mut cx, &text, *rng.pick(&[2usize, 4]), *rng.pick(&[8usize, 256]), false);
         }
-        for _ in 0..(10 * scale) {
+        for _ in 0..(14 * scale) {
             let k = rng.range(0, 5);
-            let chunks: Vec<String> = (0..k).map(|_| { let l = *rng.pick(&[0usize, 1, 4, 8, 100, 4096, 5000]); hex(&rng.bytes(l)) }).collect();
-            mmio_case(&mut cx, &chunks, *rng.pick(&[1usize, 16, 4096, 10000]), false);
+            let with_seeks = rng.chance(1, 3);
+            let mut ops: Vec<Value> = vec![];
+            for _ in 0..k {
+                let l = *rng.pick(&[0usize, 1, 4, 8, 100, 4096, 5000]);
+                let l = if with_seeks { l.min(100) } else { l };
+                ops.push(json!(["w", hex(&rng.bytes(l))]));
+                if with_seeks { match rng.below(5) { 0 => ops.push(json!(["s", rng.below(9)])), 1 => ops.push(json!(["x"])), 2 => ops.push(json!(["f"])), 3 => ops.push(json!(["t"])), _ => {} } }
+            }
+            mmio_case(&mut cx, &ops, *rng.pick(&[1usize, 16, 4096, 10000]), false);
         }
     }
     cx.sum.dist_max("images_reopened_in_reader_process", cx.images);
